@@ -226,6 +226,17 @@ CLAIMED["C17"] = (
     "before the next write.",
     "DESIGN.md §5 C17")
 
+CLAIMED["C20"] = (
+    "model_checking",
+    "property-level timed transducer BusWatch in TLA+ (one-frame device-type memory, query/answer pairing with 200 ms "
+    "timeout, send-twice repeat detection, delivery to the subscribers present) run by TLC over the same report history "
+    "the fake gateway produced and compared with what every subscriber of the real driver received",
+    "Histories of 1..8 transactions of every kind in the property's list with gaps on both sides of the timeout, "
+    "interleaved with an own send, 0-3 subscribers joining/leaving; Tridonic watcher via bus_traffic callbacks, LUBA/SCI "
+    "via DistributorQueue children; decoded class checked against the specification's tables in device-type context.",
+    "Trusted: as C15; timeouts never exercised at equality; join/leave never coincide with a report.",
+    "DESIGN.md §5 C20")
+
 NOT_YET = {}
 
 
